@@ -365,6 +365,22 @@ def main(tier, seed):
                 parsed = None
             if parsed is None:
                 stats["unlabeled_or_unsupported"] += 1
+                # a labelled unit scaled by a rational whose numerator and denominator both fit uintmax_t must show their exact digits:
+                # the generic marker is reserved for factors that no 64-bit integer pair can spell
+                if t[0] == "scale" and t[1][0] == "atom" and "UNLABELED SCALE FACTOR" in label and "UNLABELED UNIT" not in label:
+                    sm = {b: Fraction(e) for b, e in t[2][0].items()}
+                    if sm and all(b != "pi" and e.denominator == 1 for b, e in sm.items()):
+                        num = den = 1
+                        for b, e in sm.items():
+                            if e > 0:
+                                num *= int(b[1:]) ** int(e)
+                            else:
+                                den *= int(b[1:]) ** int(-e)
+                        if num < 2 ** 64 and den < 2 ** 64:
+                            stats["scale_digits_demanded"] = stats.get("scale_digits_demanded", 0) + 1
+                            violations.append({"what": f"the label {label!r} of {shown} hides the scale factor {num}/{den} behind the generic marker although "
+                                                       "numerator and denominator fit 64 bits: integer scale factors must appear as their exact digits",
+                                               "class": "scale-digits", "rec": dict(base, kind="scale-digits", num=str(num), den=str(den))})
             else:
                 stats["labels_parsed"] += 1
                 if parsed[0] != d or parsed[1] != mg:
